@@ -144,6 +144,8 @@ def check_ijepa(spec):
     H, W = spec["gh"], spec["gw"]
     ps = spec["patch"]
     ph, pw = (ps, ps) if isinstance(ps, int) else ps
+    # images whose size is not a multiple of the patch size: the grid has as many patches as fit (the remainder is cut by the patch embedding)
+    rh, rw = {"max": (ph - 1, pw - 1), "h": (ph - 1, 0), "half": (ph // 2, pw // 2)}.get(spec.get("rem"), (0, 0))
     enc, pred = _areas(H, W, spec)
     if min(min(e) for e in enc) < 1 or min(min(p) for p in pred) < 1:
         raise Refused("a configured block can have zero patches")
@@ -155,7 +157,7 @@ def check_ijepa(spec):
     B = spec["B"]
 
     def make(seed):
-        c = KDIjepaMaskCollator(input_size=(H * ph, W * pw), patch_size=ps if isinstance(ps, int) else tuple(ps), encoder_mask_scale=tuple(spec["enc_scale"]),
+        c = KDIjepaMaskCollator(input_size=(H * ph + rh, W * pw + rw), patch_size=ps if isinstance(ps, int) else tuple(ps), encoder_mask_scale=tuple(spec["enc_scale"]),
                                 predictor_mask_scale=tuple(spec["pred_scale"]), predictor_aspect_ratio=tuple(spec["pred_ar"]),
                                 num_enc_masks=spec["n_enc"], num_pred_masks=spec["n_pred"], min_keep=spec["min_keep"],
                                 tries=spec["tries"], dataset_mode="x", return_ctx=True)
@@ -165,7 +167,7 @@ def check_ijepa(spec):
     if spec.get("via") in ("wrapper", "compose"):
         # the first collator works as a member of a container that carries mode and return_ctx (the member's own stay at their defaults)
         from kappadata.collators import KDComposeCollator, KDSingleCollatorWrapper
-        member = KDIjepaMaskCollator(input_size=(H * ph, W * pw), patch_size=ps if isinstance(ps, int) else tuple(ps), encoder_mask_scale=tuple(spec["enc_scale"]),
+        member = KDIjepaMaskCollator(input_size=(H * ph + rh, W * pw + rw), patch_size=ps if isinstance(ps, int) else tuple(ps), encoder_mask_scale=tuple(spec["enc_scale"]),
                                      predictor_mask_scale=tuple(spec["pred_scale"]), predictor_aspect_ratio=tuple(spec["pred_ar"]),
                                      num_enc_masks=spec["n_enc"], num_pred_masks=spec["n_pred"], min_keep=spec["min_keep"], tries=spec["tries"])
         member.set_rng(np.random.default_rng(spec["seed"]))
@@ -256,6 +258,7 @@ DINO = st.fixed_dictionaries({"B": st.integers(1, 8), "V": st.integers(1, 3), "a
                               "seed": st.integers(0, 2 ** 32 - 1), "extra_crops": st.sampled_from([0, 0, 1, 4]), "B2": st.integers(1, 8),
                               "reassign_ratio": st.booleans()})
 IJEPA = st.fixed_dictionaries({"gh": st.integers(3, 16), "gw": st.integers(3, 16), "patch": st.sampled_from([1, 4, 16, [8, 4], [4, 8], [2, 3]]),
+                               "rem": st.sampled_from([None, None, "max", "h", "half"]),
                                "enc_scale": st.sampled_from([[0.85, 1.0], [0.5, 0.7], [0.3, 0.3], [0.6, 1.0]]),
                                "pred_scale": st.sampled_from([[0.15, 0.2], [0.05, 0.1], [0.1, 0.3], [0.02, 0.02]]),
                                "pred_ar": st.sampled_from([[0.75, 1.5], [1.0, 1.0], [0.5, 2.0]]),
